@@ -198,7 +198,7 @@ def match_finding(findings, prop, clause, site):
 # executing a plan with a hang guard
 
 
-class _Timeout(Exception):
+class _Timeout(BaseException):
     pass
 
 
